@@ -88,13 +88,13 @@ def tworoot_family():
     out = []
     ks = ['oneof_andor', 'oneof_implicit', 'andor_implicit', 'and_andor']
     n = 0
-    for k2 in ks:
-        for kp in ks[:3]:
+    for k2, kp, r1x in [(a, b, c) for a in ks for b in ks[:3] for c in (('oneof', [L('m')]), None)]:
+        if True:
             ents = [M.Entity('z', attrs=[M.Attr('a_z', M.INT())])]
 
             def E(nm, sup=(), ab=False, sx=None):
                 ents.append(M.Entity(nm, supers=list(sup), abstract=ab, sexpr=sx, attrs=[M.Attr('a_' + nm, M.INT())]))
-            E('r1', sx=('oneof', [L('m')]))
+            E('r1', sx=r1x)     # the second root with and without a SUPERTYPE OF expression of its own
             E('r2', sx=tmpl(k2, 'p', 's', 'q'))
             E('p', ['r2'], sx=tmpl(kp, 'm', 't', 'u'))
             E('s', ['r2'])
@@ -104,6 +104,23 @@ def tworoot_family():
             E('u', ['p'])
             out.append(M.Schema('tra%d' % n, [], ents))
             n += 1
+    n = 100
+    for tool_x in (('oneof', [L('drill'), L('saw')]), ('andor', L('drill'), L('saw')), ('and', L('drill'), L('saw')), None):
+        for prod_x in (None, ('oneof', [L('drill')]), ('andor', L('drill'), L('boxed'))):
+            for order in (('tool', 'product'), ('product', 'tool')):
+                ents = [M.Entity('z', attrs=[M.Attr('a_z', M.INT())])]
+
+                def E(nm, sup=(), ab=False, sx=None):
+                    ents.append(M.Entity(nm, supers=list(sup), abstract=ab, sexpr=sx, attrs=[M.Attr('a_' + nm, M.INT())]))
+                E('tool', sx=tool_x)
+                E('product', sx=prod_x)
+                E('drill', list(order))
+                E('saw', ['tool'])
+                E('bit', ['drill'])
+                if prod_x and prod_x[0] == 'andor':
+                    E('boxed', ['product'])
+                out.append(M.Schema('tra%d' % n, [], ents))
+                n += 1
     n = 0
     for op in ('andor', 'and', 'oneof'):
         for ab_c in (True, False):
